@@ -73,10 +73,13 @@ def spec_line(cf, rf):
     return None
 
 
-def chain_cases(run, exe, pairs, tag):
-    """pairs: [(state, chain)] -> (case lines, singles dict, elems dict)"""
+def chain_cases(run, exe, pairs, tag, view=None):
+    """pairs: [(state, chain)] -> (case lines, singles dict, elems dict); view(chain) = the part of the chain whose elements are
+    measured (the whole chain inside the property's domain; the bytes the copy buffer keeps beyond it)"""
+    view = view or (lambda c: c)
     chains = sorted(set(c for _, c in pairs))
-    el = model_elems(run, chains, tag)
+    elv = model_elems(run, sorted(set(view(c) for c in chains)), tag)
+    el = {c: elv[view(c)] for c in chains}
     wanted = set()
     for (st, c) in pairs:
         for (n, a, t) in el[c]:
@@ -176,8 +179,8 @@ def classify(run, res, cases, stream, in_domain=True, exe=None):
 
 
 def beyond_cases(fc):
-    """chains longer than the configuration line allows: around the copy bound and the name buffer (correspondence of the
-    truncation and of the model's Fault with the sanitizer; no specification demand)"""
+    """(state, chain) pairs with chains longer than the configuration line allows: around the copy bound and the name buffer
+    (correspondence of the truncation and of the model's Fault with the sanitizer; no specification demand)"""
     cut = min(fc["copy_n"], fc["term_idx"])
     nm, ini = fc["name_max"], fc["ini_max_line"]
     out = []
@@ -188,17 +191,17 @@ def beyond_cases(fc):
             continue
         pad = (b"noop;" * (padlen // 5 + 1))[: padlen - 1] + b";"
         for r in (1, 12, 5):
-            out.append("full\t%d\t7\t0\t%s" % (r, hexs(pad + tail + b";exclude_uid:5")))
+            out.append(((r, 7, 0), pad + tail + b";exclude_uid:5"))
     for L in (ini - 1, ini, ini + 1, cut - 1, cut, cut + 1, cut + 200):
         body = (b"nosuch:" + b"a" * 50 + b";") * (L // 58 + 1)
-        out.append("full\t0\t7\t0\t%s" % hexs(body[:L]))
-        out.append("full\t5\t7\t0\t%s" % hexs((body[: max(0, L - 10)] + b";only_root")[:L + 9]))
+        out.append(((0, 7, 0), body[:L]))
+        out.append(((5, 7, 0), (body[: max(0, L - 10)] + b";only_root")[:L + 9]))
     for k in (nm - 2, nm - 1, nm, nm + 1, nm + 40):
         if k > 0:
-            out.append("full\t0\t7\t0\t%s" % hexs(b"x" * k + b":arg;only_root"))
-            out.append("full\t0\t7\t0\t%s" % hexs(b"noop;" + b"y" * k + b":"))
-            out.append("full\t0\t7\t0\t%s" % hexs(b"z" * k))                       # no colon: never copied into the name buffer
-    return out
+            out.append(((0, 7, 0), b"x" * k + b":arg;only_root"))
+            out.append(((0, 7, 0), b"noop;" + b"y" * k + b":"))
+            out.append(((0, 7, 0), b"z" * k))                       # no colon: never copied into the name buffer
+    return out, cut
 
 
 # ------------------------------------------------------------------------------------------------ end to end
@@ -340,7 +343,9 @@ def check(run):
             if (t == "u") != (v == "u") or v not in ("u", "p", "d"):
                 reg_bad.append((n, a, t, v, st))
     # ---- stream 2: beyond the configuration-line length (truncation, name buffer): correspondence only
-    bc = beyond_cases(fc)
+    bpairs, cut = beyond_cases(fc)
+    # elements as the copy buffer keeps them; a name that reaches the name buffer's size is not measured alone (it is the fault under test)
+    bc, _, _ = chain_cases(run, exe, bpairs, "beyond", view=lambda c: b";".join(e for e in c[:max(cut, 0)].split(b";") if e.find(b":") < fc["name_max"]))
     res2 = corr_stream(run, AREA, exe, bc, stream="beyond", impl_env=FAST_ASAN)
     nv2, mism2 = classify(run, res2, bc, "beyond", in_domain=False)
     # ---- end to end
